@@ -1,6 +1,7 @@
 package gcs
 
 import (
+	"strings"
 	"fmt"
 
 	"verif/harness/internal/core"
@@ -81,6 +82,14 @@ func (g *Gen) meta(rich bool) Meta {
 	return m
 }
 
+// dirOf: the longest proper "directory" of an object name ("b/e/f" -> "b/e"), "" if none.
+func dirOf(n string) string {
+	if i := strings.LastIndex(n, "/"); i > 0 {
+		return n[:i]
+	}
+	return ""
+}
+
 func dedupKV(l []KV) []KV {
 	var out []KV
 	for _, kv := range l {
@@ -109,6 +118,7 @@ func (g *Gen) UploadOp(b, n string) *Op {
 		o.Declared = core.Pick(g.R, []string{"none", "none", "ok", "ok", "wrong", "garbage"})
 	}
 	o.Gzip = g.R.Chance(1, 6)
+	o.Chunked = g.R.Chance(1, 4)
 	return o
 }
 
@@ -255,6 +265,15 @@ func (g *Gen) Program() []core.Op {
 				g.readBack(&prog, b, nm)
 			}
 		case 5:
+			if dir := dirOf(nm); dir != "" && g.R.Chance(1, 6) {
+				// delete the name of a "directory" of other objects: there is no such object, so nothing
+				// may change — in particular not the objects below it (read back: one of them)
+				prog = append(prog, &Op{Kind: "delete", B: b, N: dir, DirName: true})
+				if p.ReadBack {
+					g.readBack(&prog, b, nm)
+				}
+				break
+			}
 			prog = append(prog, &Op{Kind: "delete", B: b, N: nm, Conds: g.conds(false)})
 			if p.ReadBack {
 				g.readBack(&prog, b, nm)
